@@ -46,8 +46,66 @@ def config_values_are_not_narrowed(prog, rep, R):
     rep.floor(R, "integer casts seen on the configuration path (all widening)", n, 1)
 
 
+def configuration_is_always_resolved(prog, rep, R):
+    """C19.g — unknown keys and ill-typed values are rejected with a non-zero exit whatever else the invocation asks for: in the
+    front-end's `format`, get_config_object() is called on every path to a return (no shortcut — empty path list, nothing to do —
+    leaves before the configuration was resolved and validated)."""
+    b = prog.body("pasfmt::format")
+    if not rep.check(b is not None, R, "anchor:format", "pasfmt::format not found"):
+        return
+    gc = [c for c in b.calls() if (c.callee or "").endswith("PasFmtConfiguration::get_config_object") or (c.target or "").endswith("::get_config_object")]
+    if not rep.check(len(gc) >= 1, R, "anchor:get_config_object", "format no longer calls get_config_object"):
+        return
+    avoid = {c.bb for c in gc}
+    rets = list(b.return_blocks())
+    bad = [r for r in rets if 0 not in avoid and b.can_reach_avoiding(0, {r}, avoid)]
+    rep.check(not bad, R, "every-return-after-get_config_object", "pasfmt::format can return (bb%s) without having resolved the configuration: an invalid configuration is then accepted silently "
+              "(exit 0) on that path" % bad[:3], where="%s:%d" % (b.file, b.line), instance={"returns": len(rets), "get_config_object_calls": len(gc)})
+    # .. and its error reaches the handler
+    ok = False
+    for c in gc:
+        for h in b.calls():
+            if h.callee in ("core::ops::function::Fn::call", "core::ops::function::FnOnce::call_once", "core::ops::function::FnMut::call_mut") and b.dominates(c.bb, h.bb):
+                f = dominating_variant_facts(prog, b, h.bb)
+                if any("get_config_object" in x[0] and x[1] == "is" and x[2] == ("Err",) for x in f):
+                    ok = True
+    rep.check(ok, R, "config-error-reaches-handler", "the error of get_config_object is not handed to the error handler", instance={"handler": "err_handler(e) under Err"})
+
+
+def explicit_config_file_must_be_a_file(prog, rep, R):
+    """C19.h — "the file given with --config-file must exist and be a regular file": the `config` crate resolves a file source by
+    trying the path and then the path with known extensions appended, so `--config-file alt` silently reads `alt.toml`.  In
+    get_config_object the explicit path is therefore tested with Path::is_file() and the negative outcome ends in Err, before the
+    path reaches the builder."""
+    from panic import dominating_conditions
+    g = prog.body(PC + "get_config_object")
+    if not rep.check(g is not None, R, "anchor:get_config_object", "get_config_object not found"):
+        return
+    gf = g.calls_to(PC + "get_config_object_from_file")
+    isf = [c for c in g.calls() if (c.callee or "") == "std::path::Path::is_file"]
+    ok = len(gf) == 1 and len(isf) >= 1
+    if ok:
+        # the test is applied to the explicit file ...
+        explicit = any(any(x[0] == "param" and "config_file" in str(x[2]) for x in Origins(g).of_operand(c.args[0])) for c in isf)
+        # ... and `not a file` cannot reach the builder call
+        blocked = False
+        for c in isf:
+            tgt = c.t.get("target")
+            t = g.blocks[tgt]["term"] if tgt is not None else {}
+            if t.get("k") == "switch":
+                false_tgt = [tb for v, tb in t["targets"] if v == 0]
+                if false_tgt and gf[0].bb not in g.reach_from(false_tgt[0], include_start=True):
+                    blocked = True
+        ok = explicit and blocked
+    rep.check(ok, R, "explicit-config-file-is_file", "get_config_object hands the --config-file path to the `config` crate without requiring Path::is_file(): a path that does not exist is then "
+              "resolved by appending `.toml` / other extensions (`--config-file alt` reads `alt.toml`)", where="%s:%d" % (g.file, g.line),
+              instance={"is_file_tests": len(isf), "negative_outcome": "Err before the builder"})
+
+
 def check_c19(prog, rep, tier, cfg):
     config_values_are_not_narrowed(prog, rep, "C19.f")
+    configuration_is_always_resolved(prog, rep, "C19.g")
+    explicit_config_file_must_be_a_file(prog, rep, "C19.h")
     # ---------------------------------------------------------------- C19.a layering
     R = "C19.a"
     b = prog.body(PC + "get_config_object_from_file")
@@ -376,6 +434,7 @@ def check_c15(prog, rep, tier, cfg):
     cursor_independence(prog, rep, "C15.d")
     cursor_measures_what_is_emitted(prog, rep, "C15.e")
     cursor_text_is_cut_byte_exactly(prog, rep, "C15.f")
+    cursor_offsets_reach_the_core_unmodified(prog, rep, "C15.g")
 
 
 CURSOR_COLLECTION_OPS = {
@@ -455,6 +514,25 @@ def cursor_independence(prog, rep, R):
                 rep.check(ok, R, "complete-traversal:%s" % short(b.npath), "the loop over the cursors in %s %s" % (short(b.npath), why), where=c.where(), instance={"body": short(b.npath), "loop": "exits on exhaustion only"})
     rep.floor(R, "operations on cursor collections", n, 20)
     rep.ok(R, {"operations": sorted((x or "?").split("::")[-1] for x in seen)})
+
+
+def cursor_offsets_reach_the_core_unmodified(prog, rep, R):
+    """C15.g — the offsets given with --cursor are handed to the core as they are: every `Cursor(x)` built outside the core takes x
+    from the user's list (a parameter / captured value / element of it) without arithmetic, min/max/clamp or any other call.  Where a
+    cursor beyond the end of the text lands is decided by the core's mapping (end of the output); clamping it before makes it a cursor
+    *at* the end of the input, which sticks to the last token instead."""
+    n = 0
+    for b in prog.bodies.values():
+        if not (b.crate.startswith("pasfmt_orchestrator") or b.crate.startswith("pasfmt.")) and not b.npath.startswith(("pasfmt_orchestrator::", "pasfmt::")):
+            continue
+        for bb, i, s2 in b.stmts():
+            if s2["k"] == "assign" and s2["rv"]["k"] == "aggregate" and norm(s2["rv"].get("adt", "")) == "pasfmt_core::formatter::Cursor":
+                n += 1
+                o = Origins(b).of_operand(s2["rv"]["ops"][0])
+                ok = bool(o) and all(x[0] in ("param", "upvar") for x in o)
+                rep.check(ok, R, "cursor-payload:%s" % short(b.npath), "%s builds a Cursor from %s instead of the user's offset itself" % (short(b.npath), sorted(x[2].split("::")[-1] if x[0] == "call" else x[0] for x in o)),
+                          where="%s:%d" % (b.file, abs(s2.get("line", 0))), instance={"body": short(b.npath), "payload": "element of the --cursor list, unmodified"})
+    rep.floor(R, "Cursor values built outside the core", n, 2)
 
 
 LOSSY_CUTTERS = ("lines", "trim", "trim_start", "trim_end", "trim_ascii", "trim_ascii_start", "trim_ascii_end", "trim_matches", "trim_start_matches", "trim_end_matches",
